@@ -468,3 +468,65 @@ Proof.
   - destruct J as [J1 J2]. rewrite J1. intros f a. apply J2.
   - rewrite J. exact I.
 Qed.
+
+(* what a conflict at one instant is, per ground fluent *)
+Definition base_num (old : option value) (D : list (option Qc)) : Prop :=
+  match old with Some (VNum c) => sum_deltas c D <> None | _ => False end.
+
+Lemma combine_fail_iff isb old A D :
+  combine isb old A D = CFail <->
+  (A <> [] /\ D <> []) \/
+  (isb = false /\ D = [] /\ exists a b, In a A /\ In b A /\ a <> b) \/
+  (A = [] /\ D <> [] /\ ~ base_num old D).
+Proof.
+  destruct A as [|a rest], D as [|d D0]; cbn [combine].
+  - split; [discriminate|]. intros [[H _]|[[_ [_ [x [y [[] _]]]]]|[_ [H _]]]]; contradiction.
+  - split.
+    + intros H. right; right. split; [reflexivity|]. split; [discriminate|]. unfold base_num.
+      destruct old as [[b|c|o]|]; try tauto. destruct (sum_deltas c (d :: D0)); [discriminate | tauto].
+    + intros [[H _]|[[_ [H _]]|[_ [_ H]]]]; [contradiction | discriminate|]. unfold base_num in H.
+      destruct old as [[b|c|o]|]; try reflexivity. destruct (sum_deltas c (d :: D0)); [|reflexivity].
+      exfalso. apply H. discriminate.
+  - destruct isb.
+    + split; [discriminate|]. intros [[_ H]|[[H _]|[H _]]]; [contradiction | discriminate | discriminate].
+    + destruct (forallb (value_eqb a) rest) eqn:E.
+      * split; [discriminate|]. intros [[_ H]|[[_ [_ [x [y [Hx [Hy N]]]]]]|[H _]]]; [contradiction| |discriminate].
+        exfalso. apply N. pose proof (proj1 (all_eq_spec a rest) E) as AE.
+        assert (G : forall z, In z (a :: rest) -> z = a) by (intros z [<-|Hz]; [reflexivity | apply AE, Hz]).
+        rewrite (G x Hx), (G y Hy). reflexivity.
+      * split; [|reflexivity]. intros _. right; left. split; [reflexivity|]. split; [reflexivity|].
+        assert (N : ~ forall y, In y rest -> y = a) by (intros HH; apply all_eq_spec in HH; congruence).
+        assert (EX : exists y, In y rest /\ y <> a).
+        { clear E. induction rest as [|z rest IH]; [exfalso; apply N; intros y []|].
+          destruct (value_eqb z a) eqn:EZ.
+          - apply value_eqb_eq in EZ. subst z. destruct IH as [y [Hy Ny]].
+            + intros HH. apply N. intros y [<-|Hy]; [reflexivity | apply HH, Hy].
+            + exists y. split; [right; exact Hy | exact Ny].
+          - exists z. split; [left; reflexivity|]. intros ->. rewrite value_eqb_refl in EZ. discriminate. }
+        destruct EX as [y [Hy Ny]]. exists y, a. split; [right; exact Hy|]. split; [left; reflexivity | exact Ny].
+  - split; [|reflexivity]. intros _. left. split; discriminate.
+Qed.
+
+(* conflicts of the joint application: two different sources assign the fluent, or Sem.v's combination fails
+   (assignment together with increase/decrease, two different values of a non-Boolean fluent, or an increase /
+   decrease that has no numeric value to work on) *)
+Theorem joint_conflict_iff P s l k :
+  joint_fluent P s l k = CFail <->
+  (exists x y, In x (assigners k l) /\ In y (assigners k l) /\ x <> y) \/
+  (avals k (map snd l) <> [] /\ deltas k (map snd l) <> []) \/
+  (is_bool_fluent P (fst k) = false /\ deltas k (map snd l) = [] /\
+     exists a b, In a (avals k (map snd l)) /\ In b (avals k (map snd l)) /\ a <> b) \/
+  (avals k (map snd l) = [] /\ deltas k (map snd l) <> [] /\ ~ base_num (s (fst k) (snd k)) (deltas k (map snd l))).
+Proof.
+  unfold joint_fluent. destruct (one_source (assigners k l)) eqn:E.
+  - unfold spec_fluent. rewrite combine_fail_iff. split.
+    + intros H. right. exact H.
+    + intros [[x [y [Hx [Hy N]]]]|H]; [|exact H]. exfalso. apply N. apply (proj1 (one_source_spec _) E); assumption.
+  - split; [|reflexivity]. intros _. left.
+    destruct (assigners k l) as [|a r] eqn:EA; [discriminate|]. cbn in E.
+    assert (EX : exists y, In y r /\ y <> a).
+    { clear EA. induction r as [|z r IH]; [discriminate|]. cbn in E. destruct (src_eqb a z) eqn:EZ.
+      - destruct (IH E) as [y [Hy Ny]]. exists y. split; [right; exact Hy | exact Ny].
+      - exists z. split; [left; reflexivity|]. intros ->. rewrite src_eqb_refl in EZ. discriminate. }
+    destruct EX as [y [Hy Ny]]. exists y, a. split; [right; exact Hy|]. split; [left; reflexivity | exact Ny].
+Qed.
